@@ -814,3 +814,333 @@ func strSizeOK(f *ssa.Function) bool {
 	})
 	return ok
 }
+
+// ---------------------------------------------------------------------------------------
+// C09: symbol ordering, same code in both formats, bounded name copies
+// ---------------------------------------------------------------------------------------
+
+func ruleSymSort(c *Ctx) {
+	c.doc("S9", "user symbols are ordered with a stable sort over exactly the entries after the four fixed ones; the comparator reads only SectionNumber and Value (never the name) and orders by Value ascending")
+	f := c.L.SSAFunc("internal/filefmt", "(*CoffFormat).generateSymbolEntries")
+	if f == nil {
+		c.anchorMissing("S9", "filefmt.(*CoffFormat).generateSymbolEntries")
+		return
+	}
+	n := 0
+	callsIn(f, func(ci ssa.CallInstruction) {
+		name := calleeName(ci.Common())
+		if !strings.HasPrefix(name, "sort.") && !strings.HasPrefix(name, "slices.Sort") {
+			return
+		}
+		n++
+		pos := c.L.Pos(instrPos(ci))
+		c.check(name == "sort.SliceStable" || name == "slices.SortStableFunc", "S9", "generateSymbolEntries|stable", pos, "symbols with equal keys must keep declaration order: "+name+" is not a stable sort")
+		// sorted range starts after the fixed entries
+		var low ssa.Value
+		arg := ci.Common().Args[0]
+		if mi, ok := arg.(*ssa.MakeInterface); ok {
+			arg = mi.X
+		}
+		if sl, ok := arg.(*ssa.Slice); ok {
+			low = sl.Low
+		}
+		k, ok := low.(*ssa.Const)
+		c.check(ok && k.Int64() == 4, "S9", "generateSymbolEntries|sorted range", pos, "the sort must cover exactly the entries after .file and the three section symbols (slice from index 4)")
+		// comparator
+		var cmp *ssa.Function
+		if mc, ok := ci.Common().Args[1].(*ssa.MakeClosure); ok {
+			cmp = mc.Fn.(*ssa.Function)
+		} else if fn, ok := ci.Common().Args[1].(*ssa.Function); ok {
+			cmp = fn
+		}
+		if cmp == nil {
+			c.fail("S9", "generateSymbolEntries|comparator", pos, "undecided: comparator is not a function literal")
+			return
+		}
+		fields := map[string]bool{}
+		var lss []*ssa.BinOp
+		for _, b := range cmp.Blocks {
+			for _, in := range b.Instrs {
+				switch x := in.(type) {
+				case *ssa.FieldAddr:
+					fields[fieldName(x)] = true
+				case *ssa.Field:
+					if st, ok := x.X.Type().Underlying().(*types.Struct); ok {
+						fields[st.Field(x.Field).Name()] = true
+					}
+				case *ssa.BinOp:
+					if x.Op == token.LSS || x.Op == token.GTR {
+						lss = append(lss, x)
+					}
+				}
+			}
+		}
+		var fl []string
+		bad := false
+		for _, k := range sortedKeys(fields) {
+			fl = append(fl, k)
+			if k != "Main" && k != "SectionNumber" && k != "Value" {
+				bad = true
+			}
+		}
+		c.check(!bad && fields["Value"] && fields["SectionNumber"], "S9", "generateSymbolEntries|comparator keys", c.L.Pos(cmp.Pos()), fmt.Sprintf("comparator reads fields %v; it must order by (undefined last, Value) and never by name", fl))
+		// Value ascending: Value(i) < Value(j)
+		asc := false
+		for _, b := range lss {
+			xi, yi := derivesFromParam(b.X, cmp.Params[0]), derivesFromParam(b.Y, cmp.Params[1])
+			xj, yj := derivesFromParam(b.X, cmp.Params[1]), derivesFromParam(b.Y, cmp.Params[0])
+			if isFieldLoad(b.X, "Value") && isFieldLoad(b.Y, "Value") {
+				if (b.Op == token.LSS && xi && yi) || (b.Op == token.GTR && xj && yj) {
+					asc = true
+				}
+			}
+		}
+		c.check(asc, "S9", "generateSymbolEntries|ascending by value", c.L.Pos(cmp.Pos()), "less(i,j) must be Value[i] < Value[j] (defined symbols in address order)")
+	})
+	c.check(n == 1, "S9", "generateSymbolEntries|one sort", c.L.Pos(f.Pos()), fmt.Sprintf("expected exactly one sort of the symbol entries, found %d", n))
+	c.floor("S9", 5)
+}
+
+func derivesFromParam(v ssa.Value, p *ssa.Parameter) bool {
+	seen := map[ssa.Value]bool{}
+	var walk func(ssa.Value) bool
+	walk = func(x ssa.Value) bool {
+		if x == p {
+			return true
+		}
+		if seen[x] {
+			return false
+		}
+		seen[x] = true
+		if in, ok := x.(ssa.Instruction); ok {
+			for _, op := range in.Operands(nil) {
+				if op != nil && *op != nil && walk(*op) {
+					return true
+				}
+			}
+		}
+		return false
+	}
+	return walk(v)
+}
+
+func ruleF4(c *Ctx) {
+	c.doc("F4", "both output paths write the field CodeGenContext.MachineCode unmodified, and that field is stored only by the emission loop")
+	// writers of the field
+	for _, f := range c.L.RepoFuncs() {
+		if c.isGeneratedFn(f) {
+			continue
+		}
+		for _, b := range f.Blocks {
+			for _, in := range b.Instrs {
+				st, ok := in.(*ssa.Store)
+				if !ok {
+					continue
+				}
+				fa, ok := st.Addr.(*ssa.FieldAddr)
+				if !ok || fieldName(fa) != "MachineCode" || !namedTypeIs(fa.X.Type(), "internal/codegen", "CodeGenContext") {
+					continue
+				}
+				key := shortName(f) + "|store MachineCode"
+				top := shortName(outermost(f))
+				switch {
+				case top == "internal/codegen.GenerateX86":
+					c.ok("F4", key, c.L.Pos(instrPos(in)), "emission loop result")
+				case isFreshAlloc(fa.X):
+					c.ok("F4", key, c.L.Pos(instrPos(in)), "initialisation of a fresh context")
+				default:
+					c.fail("F4", key, c.L.Pos(instrPos(in)), "CodeGenContext.MachineCode is modified outside the emission loop: the flat binary and the .text section could differ from the generated code")
+				}
+			}
+		}
+	}
+	// the flat write
+	f := c.L.SSAFunc("internal/frontend", "Exec")
+	if f == nil {
+		c.anchorMissing("F4", "internal/frontend.Exec")
+		return
+	}
+	n := 0
+	callsIn(f, func(ci ssa.CallInstruction) {
+		if calleeName(ci.Common()) == "(*os.File).Write" {
+			n++
+			c.check(isFieldLoad(ci.Common().Args[1], "MachineCode"), "F4", "internal/frontend.Exec|flat write source", c.L.Pos(instrPos(ci)), "the flat binary must be exactly ctx.MachineCode")
+		}
+	})
+	c.check(n == 1, "F4", "internal/frontend.Exec|one flat write", c.L.Pos(f.Pos()), fmt.Sprintf("%d flat writes", n))
+	// the COFF write: covered by the P4 label "machinecode"; re-check source here
+	w := c.L.SSAFunc("internal/filefmt", "(*CoffFormat).Write")
+	if w == nil {
+		c.anchorMissing("F4", "filefmt.(*CoffFormat).Write")
+		return
+	}
+	m := 0
+	callsIn(w, func(ci ssa.CallInstruction) {
+		if calleeName(ci.Common()) == "(*bytes.Buffer).Write" && isFieldLoad(ci.Common().Args[1], "MachineCode") {
+			m++
+		}
+	})
+	c.check(m == 1, "F4", "filefmt.Write|.text source", c.L.Pos(w.Pos()), fmt.Sprintf(".text raw data must be ctx.MachineCode written once; found %d such writes", m))
+	// same context object on both paths: format.Write receives the ctx whose MachineCode the flat path writes
+	c.floor("F4", 4)
+}
+
+func isFreshAlloc(v ssa.Value) bool {
+	_, ok := v.(*ssa.Alloc)
+	return ok
+}
+
+func ruleBoundedCopy(c *Ctx) {
+	c.doc("B9", "a copy of a caller-supplied name into a fixed-size COFF field is preceded by a test of its length (otherwise the name is truncated silently)")
+	total := 0
+	for _, f := range c.L.RepoFuncs() {
+		if pkgRel(f) != "internal/filefmt" {
+			continue
+		}
+		n := 0
+		for _, b := range f.Blocks {
+			for _, in := range b.Instrs {
+				call, ok := in.(*ssa.Call)
+				if !ok {
+					continue
+				}
+				bi, ok := call.Call.Value.(*ssa.Builtin)
+				if !ok || bi.Name() != "copy" {
+					continue
+				}
+				dst, src := call.Call.Args[0], call.Call.Args[1]
+				if !fixedSizeBuf(dst) || !isStringish(src) {
+					continue
+				}
+				n++
+				total++
+				key := fmt.Sprintf("%s|name copy#%d", shortName(f), n)
+				// headerBuf/sectionHeaderBuf copies into finalBytes slices: source length is checked explicitly
+				if constStringSource(src) {
+					c.ok("B9", key, c.L.Pos(instrPos(in)), "source is a constant string")
+					continue
+				}
+				if lengthTested(f, src, b) {
+					c.ok("B9", key, c.L.Pos(instrPos(in)), "length of the source is tested before the copy")
+					continue
+				}
+				c.fail("B9", key, c.L.Pos(instrPos(in)), "copy into a fixed-size field without a length test: longer input is truncated without a diagnostic")
+			}
+		}
+	}
+	c.floor("B9", 3)
+}
+
+func fixedSizeBuf(v ssa.Value) bool {
+	switch x := v.(type) {
+	case *ssa.Slice:
+		// slice of an array (Alloc of [N]byte) or of a const-size make
+		if x.Low != nil || x.High != nil {
+			// finalBytes[a:b] — bounded window
+			return true
+		}
+		return fixedSizeBuf(x.X)
+	case *ssa.Alloc:
+		if p, ok := x.Type().Underlying().(*types.Pointer); ok {
+			_, isArr := p.Elem().Underlying().(*types.Array)
+			return isArr
+		}
+	case *ssa.MakeSlice:
+		_, ok := x.Len.(*ssa.Const)
+		return ok
+	}
+	return false
+}
+
+func constStringSource(v ssa.Value) bool {
+	seen := map[ssa.Value]bool{}
+	var walk func(ssa.Value) bool
+	walk = func(x ssa.Value) bool {
+		if seen[x] {
+			return true
+		}
+		seen[x] = true
+		switch y := x.(type) {
+		case *ssa.Const:
+			return true
+		case *ssa.Phi:
+			for _, e := range y.Edges {
+				if !walk(e) {
+					return false
+				}
+			}
+			return true
+		case *ssa.UnOp:
+			if y.Op == token.MUL {
+				return walk(y.X)
+			}
+		case *ssa.IndexAddr:
+			return walk(y.X)
+		case *ssa.Slice:
+			return walk(y.X)
+		case *ssa.Alloc:
+			// array literal of constants: every store into it is a constant
+			if y.Referrers() == nil {
+				return false
+			}
+			for _, r := range *y.Referrers() {
+				switch z := r.(type) {
+				case *ssa.IndexAddr:
+					if z.Referrers() != nil {
+						for _, r2 := range *z.Referrers() {
+							if st, ok := r2.(*ssa.Store); ok && st.Addr == z {
+								if _, ok := st.Val.(*ssa.Const); !ok {
+									return false
+								}
+							}
+						}
+					}
+				}
+			}
+			return true
+		case *ssa.Convert:
+			return walk(y.X)
+		}
+		return false
+	}
+	return walk(v)
+}
+
+// lengthTested: some comparison involving len(src) (same SSA value, or a value src was
+// converted from) sits in a block that dominates blk.
+func lengthTested(f *ssa.Function, src ssa.Value, blk *ssa.BasicBlock) bool {
+	alias := map[ssa.Value]bool{src: true}
+	if cv, ok := src.(*ssa.Convert); ok {
+		alias[cv.X] = true
+	}
+	for _, b := range f.Blocks {
+		if !b.Dominates(blk) {
+			continue
+		}
+		for _, in := range b.Instrs {
+			bo, ok := in.(*ssa.BinOp)
+			if !ok {
+				continue
+			}
+			for _, side := range []ssa.Value{bo.X, bo.Y} {
+				if call, ok := side.(*ssa.Call); ok {
+					if bi, ok := call.Call.Value.(*ssa.Builtin); ok && bi.Name() == "len" && alias[call.Call.Args[0]] {
+						return true
+					}
+				}
+			}
+		}
+	}
+	return false
+}
+
+// isStringish: the copy source is a string (copy(dst, s)) or a []byte converted from one.
+func isStringish(v ssa.Value) bool {
+	if isStringType(v.Type()) {
+		return true
+	}
+	if cv, ok := v.(*ssa.Convert); ok {
+		return isStringType(cv.X.Type())
+	}
+	return false
+}
